@@ -132,7 +132,8 @@ def run_lopsided(case):
 
 
 def _lopsided_cases(tier):
-    ms = (17, 24, 40) if tier == "quick" else (17, 24, 33, 40, 64, 100)
+    # 600 and 1100 sinks: more than 1024 arcs (pynndescent's solver has size-dependent code paths)
+    ms = (17, 24, 40, 600, 1100) if tier == "quick" else (17, 24, 33, 40, 64, 100, 511, 512, 600, 1100, 2050)
     for m in ms:
         for pat in range(6):
             for transpose in (False, True):
